@@ -214,14 +214,14 @@ class Interp:
                         except ValueError:
                             cv.dc_params[kw.arg] = None
         # enums
-        if any(isinstance(c, BuiltinClass) and c.name in ('Enum', 'Flag', 'IntEnum') for c in cv.mro):
+        if any(isinstance(c, BuiltinClass) and c.name in ('Enum', 'Flag', 'IntEnum', 'IntFlag') for c in cv.mro):
             self._build_enum(cv, env)
         return cv
 
     def _build_enum(self, cv: ClassVal, env: Env):
         members = []
         auto_n = 0
-        is_flag = any(isinstance(c, BuiltinClass) and c.name == 'Flag' for c in cv.mro)
+        is_flag = any(isinstance(c, BuiltinClass) and c.name in ('Flag', 'IntFlag') for c in cv.mro)
         for stmt in cv.node.body:
             if isinstance(stmt, ast.Assign) and len(stmt.targets) == 1 and isinstance(stmt.targets[0], ast.Name):
                 nm = stmt.targets[0].id
@@ -238,6 +238,7 @@ class Interp:
                         val = self.eval(v, env)
                     if isinstance(val, int):
                         auto_n = val if not is_flag else max(auto_n, val.bit_length())
+                env.vars[nm] = val
                 members.append(EnumMember(cv, nm, val, len(members)))
         cv.enum_members = members
         cv.is_flag = is_flag
